@@ -7,6 +7,7 @@ package mux
 
 import (
 	"fmt"
+	"sync"
 
 	"github.com/bluenviron/gohlslib/v2/pkg/codecs"
 	"github.com/bluenviron/mediacommon/v2/pkg/codecs/av1"
@@ -27,7 +28,106 @@ var h264SPSBase = []byte{
 
 // H264Params returns parameter set number i (SPS variants differ in level_idc / constraint
 // flags and still parse; PPS bytes are never parsed by the library).
+// H264 parameter sets 100.. belong to the "reorder" family: an SPS with pic_order_cnt_type 0
+// (taken from mediacommon's DTS extractor test), for which the muxer derives decode times from
+// the picture order counts in the slice headers (dts != pts with B-frames).
+const H264ReorderBase = 100
+
+var h264SPSReorder = []byte{
+	0x67, 0x64, 0x00, 0x28, 0xac, 0xd9, 0x40, 0x78,
+	0x02, 0x27, 0xe5, 0x84, 0x00, 0x00, 0x03, 0x00,
+	0x04, 0x00, 0x00, 0x03, 0x00, 0xf0, 0x3c, 0x60,
+	0xc6, 0x58,
+}
+
+var h264ReorderLevels = []byte{0x28, 0x29, 0x1f, 0x2a}
+
+// IsH264Reorder tells whether a parameter set index belongs to the reorder family.
+func IsH264Reorder(i int) bool { return i >= H264ReorderBase }
+
+var (
+	h264ReorderOnce sync.Once
+	h264ReorderSPSp h264.SPS
+)
+
+func h264ReorderSPS() *h264.SPS {
+	h264ReorderOnce.Do(func() {
+		if err := h264ReorderSPSp.Unmarshal(h264SPSReorder); err != nil {
+			panic(err)
+		}
+		if h264ReorderSPSp.PicOrderCntType != 0 || !h264ReorderSPSp.FrameMbsOnlyFlag {
+			panic("reorder SPS is not of pic_order_cnt_type 0")
+		}
+	})
+	return &h264ReorderSPSp
+}
+
+// H264Slice builds a slice NALU for the reorder family whose header carries pic_order_cnt_lsb =
+// poc (mod its range). kind: 0 IDR (I slice), 1 P (reference), 2 B (non-reference).
+func H264Slice(kind int, poc int, marker []byte) []byte {
+	sps := h264ReorderSPS()
+	var bitsBuf []byte
+	nbits := 0
+	put := func(v uint32, n int) {
+		for i := n - 1; i >= 0; i-- {
+			if nbits%8 == 0 {
+				bitsBuf = append(bitsBuf, 0)
+			}
+			if v&(1<<uint(i)) != 0 {
+				bitsBuf[len(bitsBuf)-1] |= 1 << uint(7-nbits%8)
+			}
+			nbits++
+		}
+	}
+	ue := func(v uint32) {
+		v++
+		n := 0
+		for t := v; t > 1; t >>= 1 {
+			n++
+		}
+		put(0, n)
+		put(v, n+1)
+	}
+	ue(0) // first_mb_in_slice
+	switch kind {
+	case 0:
+		ue(7)
+	case 1:
+		ue(5)
+	default:
+		ue(6)
+	}
+	ue(0) // pic_parameter_set_id
+	fn := int(sps.Log2MaxFrameNumMinus4 + 4)
+	put(1<<uint(fn)-1, fn) // frame_num: all ones (its value is not interpreted; avoids zero runs)
+	if kind == 0 {
+		ue(0) // idr_pic_id
+	}
+	pn := int(sps.Log2MaxPicOrderCntLsbMinus4 + 4)
+	put(uint32(poc)&(1<<uint(pn)-1), pn)
+	put(1, 1)
+	var hdr byte
+	switch kind {
+	case 0:
+		hdr = 0x65
+	case 1:
+		hdr = 0x41
+	default:
+		hdr = 0x01
+	}
+	out := append([]byte{hdr}, bitsBuf...)
+	out = append(out, 0xff)
+	return append(out, marker...)
+}
+
 func H264Params(i int) (sps, pps []byte) {
+	if i >= H264ReorderBase {
+		j := i - H264ReorderBase
+		sps = append([]byte{}, h264SPSReorder...)
+		sps[3] = h264ReorderLevels[j%len(h264ReorderLevels)]
+		pps = []byte{0x68, 0xce, byte(0x38 + j%7), 0x80 | byte(j%5+1)}
+		return
+	}
 	sps = append([]byte{}, h264SPSBase...)
 	levels := []byte{0x28, 0x29, 0x1f, 0x2a, 0x32}
 	sps[3] = levels[i%len(levels)]
@@ -250,6 +350,9 @@ func ParamsOf(codec string, idx int) ParamSet {
 	return ParamSet{}
 }
 
+// NumH264ReorderSets is the number of parameter sets of the H264 reorder family.
+const NumH264ReorderSets = 4
+
 // NumParamSets is the number of distinct parameter sets of a codec.
 func NumParamSets(codec string) int {
 	switch codec {
@@ -324,6 +427,14 @@ func BuildVideo(codec string, kind string, inBand int, tmpl int, marker []byte) 
 		if inBand >= 0 {
 			s, p := H264Params(inBand)
 			au = append(au, s, p)
+		}
+		if tmpl >= 1 && (kind == KindRA || kind == KindInter) {
+			// reorder family: tmpl-1 = poc<<2 | slice kind
+			k, poc := (tmpl-1)&3, (tmpl-1)>>2
+			if kind == KindRA {
+				k = 0
+			}
+			return append(au, H264Slice(k, poc, marker))
 		}
 		switch kind {
 		case KindRA:
